@@ -107,6 +107,14 @@ impl Incremental {
             hashes.insert(path.src.clone(), hash);
         }
 
+        // A file of the previous build that is gone (removed or renamed) can
+        // no longer provide what its dependents resolved against it.
+        for src in store.saved_sources() {
+            if !hashes.contains_key(Path::new(src)) {
+                miss.insert(PathBuf::from(src));
+            }
+        }
+
         // Anything depending on a miss is a miss too. The dependency map
         // from the previous build is already transitively closed.
         let mut dependents = HashSet::new();
